@@ -148,8 +148,13 @@ def run(res, tier, seed):
     for m in mism:
         ev = m["event"]
         exp = m.get("expected", {})
-        if ev.get("ev") == "get" and ev.get("res") == "pos" and exp.get("kind") == "pos":
+        if ev.get("res") == "PANIC":
+            cls = "panic"
+        elif ev.get("ev") == "get" and ev.get("res") == "pos" and exp.get("kind") == "pos":
             cls = "ttl-wrong" if ev.get("ttls") != exp.get("ttls") else "served-late"
+        elif ev.get("ev") == "get" and ev.get("res") == "pos" and exp.get("kind") == "chain":
+            late = (ev["t"] - exp["at"]) > exp["lifeHi"] * 2
+            cls = "alias-chain-served-late" if late else "alias-chain-ttl-wrong"
         elif ev.get("ev") == "get" and ev.get("res") == "neg":
             cls = "negative-served-late-or-grew"
         elif ev.get("ev") == "get":
